@@ -4,7 +4,8 @@
     chat <variant> <mllama 0|1> <proj 0|1|2> <limit> <tokmode> <srchex> <tmpl> <ntools> <toolsJSONhex>
          <L> {<role s|u|a|t|o> <contenthex> <nimgs> {<src> <ok 0|1>}*}*
          <ncosts> <cost>*
-      variant = f4fixed + 2*lmode + 8*efix   (variant of the tree under test, probed by the driver)
+      variant = f4fixed + 2*lmode + 8*efix + 16*f5fixed   (variant of the tree under test, probed by the driver;
+                f5fixed: every incoming content goes through `sanitizeBytes` first)
       tmpl    = X                      (template outside the modelled subset: opaque)
               | T <nodes>              (the parse tree the REAL template.Parse produced)
         nodes = <n> node*
@@ -62,25 +63,27 @@ def pImg : TP Img := do
   let ok ← nat
   pure ⟨src, ok != 0⟩
 
-def pMsg : TP Msg := do
+def pMsgS (san : Bool) : TP Msg := do
   let r ← pRole
   let c ← hex
   let imgs ← listOf pImg
-  pure ⟨r, splitImg c, imgs⟩
+  pure ⟨r, splitImg (if san then sanitizeBytes c else c), imgs⟩
 
-def pOPart : TP OPart := do
+def pMsg : TP Msg := pMsgS false
+
+def pOPart (san : Bool) : TP OPart := do
   let t ← tok
   match t with
-  | "T" => return .text (splitImg (← hex))
+  | "T" => do let c ← hex; return .text (splitImg (if san then sanitizeBytes c else c))
   | "I" => return .image (← pImg)
   | _ => failure
 
-def pOMsg : TP OMsg := do
+def pOMsg (san : Bool) : TP OMsg := do
   let r ← pRole
   let t ← tok
   match t with
-  | "S" => return ⟨r, .str (splitImg (← hex))⟩
-  | "P" => return ⟨r, .parts (← listOf pOPart)⟩
+  | "S" => do let c ← hex; return ⟨r, .str (splitImg (if san then sanitizeBytes c else c))⟩
+  | "P" => return ⟨r, .parts (← listOf (pOPart san))⟩
   | _ => failure
 
 def pFld : TP Fld := do
@@ -199,7 +202,7 @@ def handle (toks : List String) : Option String :=
       let ntools ← nat
       let toolsJson ← hex
       let tools : ToolsV := ⟨toolsJson, ntools != 0⟩
-      let msgs ← listOf pMsg
+      let msgs ← listOf (pMsgS (variant / 16 % 2 != 0))
       let costs ← listOf pCost
       let cfg : Cfg := ⟨variant % 2 != 0, mllama != 0, proj, limit⟩
       let tv : TVar := ⟨variant / 2 % 4, variant / 8 % 2 != 0⟩
@@ -266,9 +269,11 @@ def handle (toks : List String) : Option String :=
       let ntools ← nat
       let toolsJson ← hex
       let tools : ToolsV := ⟨toolsJson, ntools != 0⟩
-      let sys ← hex
-      let mm ← listOf pMsg
-      let req ← listOf pMsg
+      let san := variant / 16 % 2 != 0
+      let sys0 ← hex
+      let sys := if san then sanitizeBytes sys0 else sys0
+      let mm ← listOf (pMsgS san)
+      let req ← listOf (pMsgS san)
       let optInt : String → Option Int := fun s => if s == "-" then none else s.toInt?
       let tv : TVar := ⟨variant / 2 % 4, variant / 8 % 2 != 0⟩
       let lim := requestNumCtx dflt (optInt mp) (optInt ro)
@@ -296,9 +301,11 @@ def handle (toks : List String) : Option String :=
       let ntools ← nat
       let toolsJson ← hex
       let tools : ToolsV := ⟨toolsJson, ntools != 0⟩
-      let sys ← hex
-      let mm ← listOf pMsg
-      let oreq ← listOf pOMsg
+      let san := variant / 16 % 2 != 0
+      let sys0 ← hex
+      let sys := if san then sanitizeBytes sys0 else sys0
+      let mm ← listOf (pMsgS san)
+      let oreq ← listOf (pOMsg san)
       let req := fromOpenAI oreq
       let optInt : String → Option Int := fun s => if s == "-" then none else s.toInt?
       let tv : TVar := ⟨variant / 2 % 4, variant / 8 % 2 != 0⟩
